@@ -339,7 +339,7 @@ def install(spec: Spec):
             requires=[('lock_held', "ctx('holds_global_lock')", ['C06', 'C02']), ('in_loop', 'loop_running()', []), ('serial_bus', 'not self.parallel_handlers', [])],
             modifies=[('event_results', '*'), ('status', '*'), ('result', '*'), ('error', '*'), ('started_at', '*'), ('completed_at', '*'), ('_handler_completed_signal', '*'),
                       ('ev_set', '*'), ('task_done', '*'), ('task_cancel_requested', '*'), ('event_processed_at', '*'), ('_event_completed_signal', '*'), ('event_history', '*')],
-            ghost_modifies=['processed', 'invoked', 'eh_calls', 'wal_calls', 'wal_lines', 'wal_opens'],
+            ghost_modifies=['processed', 'invoked', 'eh_calls', 'wal_calls', 'wal_lines', 'wal_opens', 'cancel_walk_calls'],
             callsites={'self._get_applicable_handlers': {'pre': pe_first_stmt, 'ghost_writes': ['processed']},
                        'self._execute_handlers': {'pre': pe_before_handlers},
                        'self._default_log_handler': {'pre': lambda ex, n: ex.st.flags.__setitem__('handlers_phase', 'done')},
@@ -362,7 +362,7 @@ def install(spec: Spec):
             modifies=[('q_items', '*'), ('q_unfinished', '*'), ('ev_set', '*'), ('task_done', '*'), ('task_cancel_requested', '*'), ('_depth', '*'),
                       ('_semaphore', '*'), ('_loop', '*'), ('sem_value', '*'), ('g$global_lock', '*'), ('event_results', '*'), ('status', '*'), ('result', '*'), ('error', '*'),
                       ('started_at', '*'), ('completed_at', '*'), ('_handler_completed_signal', '*'), ('event_processed_at', '*'), ('_event_completed_signal', '*'), ('event_history', '*')],
-            ghost_modifies=['dequeued', 'processed', 'task_done_calls', 'permits_held', 'invoked', 'eh_calls', 'wal_calls', 'wal_lines', 'wal_opens'],
+            ghost_modifies=['dequeued', 'processed', 'task_done_calls', 'permits_held', 'invoked', 'eh_calls', 'wal_calls', 'wal_lines', 'wal_opens', 'cancel_walk_calls'],
             callsites={'self.event_queue.task_done': {'model': task_done_model, 'writes': ['q_unfinished'], 'ghost_writes': ['task_done_calls']}},
             exits_ensure=[
                 ('no_task_done_for_a_given_event', 'implies(old(event) is not None, task_done_calls == old(task_done_calls))', ['C15']),
@@ -409,7 +409,7 @@ def install(spec: Spec):
             modifies=[('_is_running', 'self')] + [('q_items', '*'), ('q_unfinished', '*'), ('ev_set', '*'), ('task_done', '*'), ('task_cancel_requested', '*'), ('_depth', '*'),
                       ('_semaphore', '*'), ('_loop', '*'), ('sem_value', '*'), ('g$global_lock', '*'), ('event_results', '*'), ('status', '*'), ('result', '*'), ('error', '*'),
                       ('started_at', '*'), ('completed_at', '*'), ('_handler_completed_signal', '*'), ('event_processed_at', '*'), ('_event_completed_signal', '*'), ('event_history', '*')],
-            ghost_modifies=['dequeued', 'processed', 'task_done_calls', 'permits_held', 'invoked', 'eh_calls', 'wal_calls', 'wal_lines', 'wal_opens'],
+            ghost_modifies=['dequeued', 'processed', 'task_done_calls', 'permits_held', 'invoked', 'eh_calls', 'wal_calls', 'wal_lines', 'wal_opens', 'cancel_walk_calls'],
             callsites={'self.step': {'pre': runloop_step_pre}, 'self._on_idle.set': {'pre': idle_set_pre}},
             exit_hook=runloop_exit,
             loops={0: {'inv': [('started', 'self._on_idle is not None and self.event_queue is not None', []),
@@ -466,7 +466,7 @@ def install(spec: Spec):
             requires=[('lock_held', "ctx('holds_global_lock')", ['C06']), ('in_loop', 'loop_running()', [])],
             modifies=[('event_results', '*'), ('status', '*'), ('result', '*'), ('error', '*'), ('started_at', '*'), ('completed_at', '*'), ('_handler_completed_signal', '*'),
                       ('ev_set', '*'), ('task_done', '*'), ('task_cancel_requested', '*')],
-            ghost_modifies=['invoked'],
+            ghost_modifies=['invoked', 'cancel_walk_calls'],
             callsites={'handler(event)': {'model': handler_call_model, 'ghost_writes': ['invoked'], 'suspends': True}},
             ensures=[
                 ('invoked_once', 'invoked == old(invoked) + 1', ['C01']),
@@ -510,7 +510,7 @@ def install(spec: Spec):
                       ('keys_are_handler_ids', HK.replace('"str"', "'str'"), ['C01']), ('handlers_is_a_dict', 'wf_dict(handlers)', [])],
             modifies=[('event_results', '*'), ('status', '*'), ('result', '*'), ('error', '*'), ('started_at', '*'), ('completed_at', '*'), ('_handler_completed_signal', '*'),
                       ('ev_set', '*'), ('task_done', '*'), ('task_cancel_requested', '*'), ('event_processed_at', '*'), ('_event_completed_signal', '*')],
-            ghost_modifies=['invoked', 'eh_calls'],
+            ghost_modifies=['invoked', 'eh_calls', 'cancel_walk_calls'],
             callsites={'self.execute_handler': {'pre': eh_pre, 'ghost_writes': ['eh_calls']}},
             loops={1: {'inv': [('each_once_so_far', 'eh_calls == old(eh_calls) + loop_i', ['C01'])]},
                    2: {'inv': [('each_once_so_far', 'eh_calls == old(eh_calls) + loop_i', ['C01'])]}},
